@@ -649,13 +649,15 @@ class PureLuaWriter(BaseLuaWriter):
         # Comment beginning with //
         if line_toks[-1].matches(lexer.TokComment):
             if line_toks[-1].code.startswith(b'//'):
-                line_toks[-1].code = line_toks[-1].code.replace(
-                    b'//', b'--', 1)
+                # (Replace the token: the token list is shared with the
+                # lexer and other writers.)
+                line_toks[-1] = lexer.TokComment(
+                    line_toks[-1].code.replace(b'//', b'--', 1))
 
         # ?...[EOL] -> print(...)
         short_print_i = self._find_tok(line_toks, lexer.TokName(b'?'))
         if short_print_i != -1:
-            line_toks[short_print_i].code = b'print'
+            line_toks[short_print_i] = lexer.TokName(b'print')
             line_toks[short_print_i + 1:] = (
                 [lexer.TokSymbol(b'(')] +
                 line_toks[short_print_i + 1:] +
